@@ -1301,9 +1301,29 @@ def rule_T1(ctx):
                 normal = {tuple(p_) for k_, p_, e_ in cfg.iteration_paths(lp) if k_ == "back"}
                 extra = [p_ for k_, p_, e_ in cfg.iteration_paths(lp, skip_labels=()) if k_ == "back" and tuple(p_) not in normal and any(l_ == "exc" for n_, l_ in p_)]
                 if extra and verdict[1] not in ("LEN-GROW",):
-                    lines_ = sorted({getattr(cfg.nodes[n_].ast, "lineno", 0) for n_, l_ in extra[0] if cfg.nodes[n_].ast is not None})
-                    verdict = None
-                    failures.append((False, "HANDLER-BACK-EDGE", f"the loop is re-entered through an exception handler (lines {lines_}): on that path nothing is proven to advance"))
+                    # the same schema, asked again with the handler paths among the back edges
+                    class _WithExc:
+                        def __init__(self, inner):
+                            self._inner = inner
+
+                        def __getattr__(self, name):
+                            return getattr(self._inner, name)
+
+                        def iteration_paths(self, lp_, skip_labels=()):
+                            return self._inner.iteration_paths(lp_, skip_labels=())
+
+                    again = None
+                    if verdict[1] == "COUNTER":
+                        # a counter moved by plain statements on the handler path is moved whether or not the guarded call failed; the
+                        # other schemas count on what a call did (a record parsed, a block read) - a call that raised did nothing
+                        try:
+                            again = sch(ctx, fn, _WithExc(cfg), lp, ev)
+                        except Exception:
+                            again = None
+                    if not (again and again[0]):
+                        lines_ = sorted({getattr(cfg.nodes[n_].ast, "lineno", 0) for n_, l_ in extra[0] if cfg.nodes[n_].ast is not None})
+                        verdict = None
+                        failures.append((False, "HANDLER-BACK-EDGE", f"the loop is re-entered through an exception handler (lines {lines_}): on that path nothing is proven to advance"))
             if verdict:
                 schemas_used[f"{m.path}:{w.lineno}"] = verdict[1]
                 ctx.ob("T1", w, f"loop `{inst}` terminates: schema {verdict[1]}", True, verdict[2], inst=inst)
